@@ -2,6 +2,7 @@ mod dump;
 mod exec;
 mod masm;
 mod parse;
+mod trace;
 
 use std::io::{BufRead, BufWriter, Write};
 
@@ -18,6 +19,7 @@ fn run_family(family: &str, path: &str) {
             "exec" => exec::run_case(&line),
             "options" => exec::run_options(&line),
             "masm" => masm::run_masm(&line),
+            "stream" => trace::run_stream(&line),
             "asmdump" => masm::run_asmdump(&line),
             _ => panic!("unknown family {family}"),
         };
